@@ -15,6 +15,7 @@ import (
 	"time"
 
 	"github.com/dgraph-io/badger/v4/table"
+	"github.com/dgraph-io/badger/v4/verifhook"
 	"github.com/dgraph-io/badger/v4/y"
 	"github.com/dgraph-io/ristretto/v2/z"
 )
@@ -155,6 +156,7 @@ func (item *Item) yieldItemValue() ([]byte, func(), error) {
 	var vp valuePointer
 	vp.Decode(item.vptr)
 	db := item.txn.db
+	verifhook.Point("item.beforeVlogRead")
 	result, cb, err := db.vlog.Read(vp, item.slice)
 	if err != nil {
 		db.opt.Errorf("Unable to read: Key: %v, Version : %v, meta: %v, userMeta: %v"+
